@@ -11,6 +11,12 @@
     list, THEN the pool; `pool_read_filters_tombstones` — the raw read of the pool drops what is in the tombstone list (so
     a kill between the two writes leaves the operation retired, not pending again); `put_touches_only_pool` —
     `PutOperation` writes the pool and nothing else (it cannot remove a tombstone).
+  * the clock (C08, C05; `MoreFacts.clockReads`): `clock_readers_known` — of all functions in the round machines, the FSM
+    engine, the request types, the node services, the repositories and the board storage, exactly three mention a clock-reading
+    function of package `time`: the poller's ticker, `ProposeSignMessages` (the stamp of a new proposal, which then travels in
+    the log) and `handleMessage` (the stamp `CreatedAt` of the request built from a board message: the node-clock parameter
+    of `Props/C13Clock.lean`). `round_machines_read_no_clock`: none of them is in a directory under `fsm` — a round's
+    callbacks compare stamps that came with the log, never the wall clock of the machine that happens to replay it.
 -/
 import Dc4bcVerif.Gen.MoreFacts
 import Dc4bcVerif.Gen.Locks
@@ -34,5 +40,18 @@ theorem delete_tombstone_first : callsOf "DeleteOperation" =
 theorem pool_read_filters_tombstones : (callsOf "getOperations").contains "r.getDeletedOperations" = true := by decide
 
 theorem put_touches_only_pool : callsOf "PutOperation" = ["r.getOperations", "r.state.Set(r.operationsCompositeKey)"] := by decide
+
+theorem clock_readers_known : MoreFacts.clockReads =
+    [("client/services/node", "Poll:NewTicker"), ("client/services/node", "ProposeSignMessages:Now"),
+     ("client/services/node", "handleMessage:Now")] := by decide
+
+theorem round_machines_read_no_clock : ∀ p ∈ MoreFacts.clockReads, p.1 = "client/services/node" := by
+  rw [clock_readers_known]; decide
+
+/-- the directories of the round machines, the engine and the request types were among those searched -/
+theorem round_machines_were_searched :
+    ["fsm/fsm", "fsm/fsm_pool", "fsm/state_machines", "fsm/state_machines/dkg_proposal_fsm", "fsm/state_machines/internal",
+     "fsm/state_machines/signature_proposal_fsm", "fsm/state_machines/signing_proposal_fsm", "fsm/types/requests",
+     "client/services/fsmservice"].all (fun d => MoreFacts.clockDirs.contains d) = true := by decide
 
 end Dc4bcVerif.Props.SrcFacts
